@@ -114,7 +114,7 @@ int main(int argc, char **argv) {
     vf_world_init(A.mtu, A.wifi, (uint8_t)A.fill);
     build_alphabet();
     e1_cfg cfg = { .nev = NEV, .ev_name = ev_name, .apply = apply, .root_setup = root_setup,
-                   .model = &M, .model_size = sizeof M, .deadline_s = A.deadline > 0 ? A.deadline : 600 };
+                   .model = &M, .model_size = sizeof M, .deadline_s = A.deadline };
     int sweep = strcmp(A.mode, "sweep") == 0;
     if (A.replay) { A.verbose = 1; return e1_replay_file(sweep ? &sweep_cfg : &cfg, A.replay); }
     double t0 = vf_now_s();
